@@ -5,7 +5,8 @@ from props import common, generic
 FUNCS = [('sqlparse.filters.tokens._CaseFilter.process', 'KeywordCaseFilter'),
          ('sqlparse.filters.tokens.IdentifierCaseFilter.process', None),
          ('sqlparse.filters.tokens.TruncateStringFilter.process', None),
-         ('sqlparse.formatter.validate_options', None)]
+         ('sqlparse.formatter.validate_options', None),
+         ('sqlparse.filters.others.StripCommentsFilter._process', 'sites')]
 
 
 def filter_tables(rep):
@@ -31,8 +32,9 @@ def run(rep):
         rep, FUNCS, structural=[filter_tables],
         assumptions=['str.upper / lower / capitalize are total and idempotent (uninterpreted `convert`)',
                      'a Name / String.Symbol token value is not blank (lexer fact)',
-                     'StripCommentsFilter (tree filter) and "no two tokens fused or split / idempotent" (re-lexing): '
-                     'bounded stand-in only'],
+                     'StripCommentsFilter._process: per-site SMT obligations (every removed element is a comment that is not '
+                     'a hint, every inserted one a fresh whitespace token) in the thorough tier; "no two tokens fused or '
+                     'split / idempotent" (re-lexing): bounded stand-in only'],
         trusted=['CPython re engine', 'str case-mapping methods'],
         extra_functions=['sqlparse.filters.others.StripCommentsFilter._process'])
 
